@@ -109,7 +109,7 @@ func TestVerif_C10(t *testing.T) {
 				// return, the later steps of the same input each cost the full time allowance again)
 				if (m.typ == 'S' || m.typ == 'N') && m.mask == 0 {
 					for st, name := range c10StepNames["src"] {
-						if strings.Contains(rp.Key, "/"+name+"/") {
+						if strings.Contains(rp.Key, "/"+name+"/") || strings.HasSuffix(rp.Key, "/"+name) {
 							m.mask = 1 << st
 						}
 					}
